@@ -8,7 +8,8 @@
    Domain: a file system is ANY function from paths to the states
    Missing | Directory | Unreadable e | Bytes decodable text  (text: any string), for the
    configuration file, the currency file and the history file wherever the configuration puts
-   them; float() is ANY function from field texts to optional rationals; the answers of the
+   them; float() is ANY function from field texts to optional rationals and the NFKD/ASCII
+   reduction of currency names ANY function on strings; the answers of the
    operating system on writing the history file are arbitrary.  Not modelled: non-ASCII white
    space and digits, 'nan'/'inf' rate texts, special files (FIFOs, devices), races. *)
 From Coq Require Import List String ZArith QArith.
@@ -17,17 +18,17 @@ Local Open Scope string_scope.
 
 (* Whatever the states of the three files, start-up reaches evaluation: no exception escapes the
    two configuration reads, the currency load, the base selection or the unit registration. *)
-Theorem C19_starts : forall pf fs, exists s, startup pf fs = Started s.
+Theorem C19_starts : forall pf nn fs, exists s, startup pf nn fs = Started s.
 Proof. exact (startup_starts handlers_catch_true builtin_table_ok_true). Qed.
 
 (* A line that passes the checks for its option takes effect whatever the other lines are
    (the last such line for the option wins). *)
-Theorem C19_valid_settings_survive : forall pf fs text pre l post k v,
+Theorem C19_valid_settings_survive : forall pf nn fs text pre l post k v,
   fs PConfig = Bytes true text ->
   readlines (universal_newlines text) = (pre ++ l :: post)%list ->
   line_effect l = ESet k v ->
   (forall l' v', In l' post -> line_effect l' <> ESet k v') ->
-  exists s, startup pf fs = Started s /\ assoc k (st_cfg s) = Some v /\ cfg_get (st_cfg s) k = Some v.
+  exists s, startup pf nn fs = Started s /\ assoc k (st_cfg s) = Some v /\ cfg_get (st_cfg s) k = Some v.
 Proof. exact (valid_settings_survive handlers_catch_true builtin_table_ok_true). Qed.
 
 (* Only the first '=' separates: the value of a textual option keeps every further '='. *)
@@ -38,9 +39,9 @@ Theorem C19_separator_in_value : forall k0 v0 p,
 Proof. exact separator_in_value. Qed.
 
 (* Missing, a directory, unreadable, undecodable: every option has its default. *)
-Theorem C19_defaults_for_unreadable : forall pf fs,
+Theorem C19_defaults_for_unreadable : forall pf nn fs,
   config_unusable (fs PConfig) ->
-  exists s, startup pf fs = Started s /\ st_cfg s = [] /\
+  exists s, startup pf nn fs = Started s /\ st_cfg s = [] /\
             forall name, cfg_get (st_cfg s) name = option_map default_of (prop_of name).
 Proof. exact (defaults_for_unreadable handlers_catch_true builtin_table_ok_true). Qed.
 
@@ -53,7 +54,7 @@ Proof. exact (currency_fallback handlers_catch_true). Qed.
 
 (* The table in use has positive rates and is not empty; it is the built-in one, or the non-empty
    table the file parses to. *)
-Theorem C19_table_in_use : forall pf fs s, startup pf fs = Started s ->
+Theorem C19_table_in_use : forall pf nn fs s, startup pf nn fs = Started s ->
   rates_positive (st_table s) /\ st_table s <> [] /\
   ((st_from_file s = false /\ st_table s = currency_data) \/
    (st_from_file s = true /\ exists c text,
@@ -64,7 +65,7 @@ Proof. exact (startup_table handlers_catch_true builtin_table_ok_true). Qed.
 (* Base-currency fallback and registration: with no usable base there is no cash dimension;
    otherwise the registration loop returns (no assertion of register_unit fails, no division by
    zero) and every cash unit carries rate(base)/rate(row). *)
-Theorem C19_registration_never_raises : forall pf fs s, startup pf fs = Started s ->
+Theorem C19_registration_never_raises : forall pf nn fs s, startup pf nn fs = Started s ->
   match st_base s with
   | None => st_reg s = None
   | Some b => exists st bb, st_reg s = Some st /\ In bb (st_table s) /\ c_sym bb = b
@@ -73,8 +74,8 @@ Theorem C19_registration_never_raises : forall pf fs s, startup pf fs = Started 
 Proof. exact (startup_registry handlers_catch_true builtin_table_ok_true). Qed.
 
 (* Evaluation can display floats: the effective precision always fits str.format. *)
-Theorem C19_precision_formattable : forall pf fs s,
-  startup pf fs = Started s -> format_float (st_cfg s) = POk tt.
+Theorem C19_precision_formattable : forall pf nn fs s,
+  startup pf nn fs = Started s -> format_float (st_cfg s) = POk tt.
 Proof. exact (startup_precision_formattable handlers_catch_true props_okb_true). Qed.
 
 (* Loading history (inside and outside load_history's handler) never stops the interpreter. *)
@@ -96,7 +97,7 @@ Definition ex_pf : pyfloat_t := float_table [("1.0", 1); ("0.5", 1 # 2); ("0", 0
 
 (* a partly invalid configuration: the valid lines take effect, '=' survives in the prompt *)
 Example C19_witness_partly_invalid :
-  match startup ex_pf (fs_of (Bytes true ("precision = 3" ++ nl1 ++ "prompt = a=b" ++ nl1 ++ "nonsense" ++ nl1
+  match startup ex_pf ascii_alnum_only (fs_of (Bytes true ("precision = 3" ++ nl1 ++ "prompt = a=b" ++ nl1 ++ "nonsense" ++ nl1
                                           ++ "foo = 1" ++ nl1 ++ "precision = -1" ++ nl1 ++ "save-history = maybe"))
                              Missing Missing Missing "" "") with
   | Started s => cfg_get (st_cfg s) "precision" = Some (VInt 3)
@@ -108,11 +109,11 @@ Proof. vm_compute. repeat split. Qed.
 
 (* an unreadable configuration, a currency file with a zero rate, a usable one *)
 Example C19_witness_faults :
-  (match startup ex_pf (fs_of (Unreadable EOSError)
+  (match startup ex_pf ascii_alnum_only (fs_of (Unreadable EOSError)
                               (Bytes true ("usd,usdollar,1.0" ++ nl1 ++ "eur,euro,0" ++ nl1)) Directory Missing "" "") with
    | Started s => st_cfg s = [] /\ st_from_file s = false /\ List.length (st_table s) = List.length currency_data
    | Crashed _ => False end)
-  /\ (match startup ex_pf (fs_of Missing
+  /\ (match startup ex_pf ascii_alnum_only (fs_of Missing
                               (Bytes true ("usd,usdollar,1.0" ++ nl1 ++ "eur,euro,0.5" ++ nl1)) Directory Missing "" "") with
    | Started s => st_from_file s = true /\ st_table s = [("usd", "usdollar", 1); ("eur", "euro", 1 # 2)]
                   /\ st_base s = Some "eur"
